@@ -240,12 +240,12 @@ def gen_fuzz_cases(r, tier, sds):
     for s in sds:
         if len(s[1]) > (120000 if quick else 3000000):
             continue
-        for ops, kind in M.reloc_cases(r, s[1], M.reloc_targets(s[1]), 6 if quick else 12):
+        for ops, kind in M.reloc_cases(r, s[1], M.reloc_targets(s[1]), 6 if quick else 8):
             add(s[0], ops, s[2], kind)
     # (b3) .NET signature blobs of the #Blob heap rewritten with crafted type encodings (array shapes, nesting, generic instantiations, compressed ints)
     for s in sds:
         if s[2] == "dotnet":
-            for ops, kind in M.dotnet_blob_cases(r, s[1], 120 if quick else 1500):
+            for ops, kind in M.dotnet_blob_cases(r, s[1], 120 if quick else 500):
                 add(s[0], ops, s[2], kind)
     # (c) truncation at every structure boundary of every seed (all deltas for the smallest seed of each format)
     for fmt in fmts:
@@ -255,7 +255,7 @@ def gen_fuzz_cases(r, tier, sds):
                 for dlt in ((-1, 0, 1, 7, 39) if (s is small or not quick) else (r.choice([0, 1, 1, 7, 19, 39]),)):
                     add(s[0], "T%d" % max(0, min(len(s[1]), c + dlt)), fmt, "trunc@boundary")
     # (d) random mix
-    for _ in range(900 if quick else 40000):
+    for _ in range(900 if quick else 20000):
         fmt = r.choice(fmts)
         cand = per_fmt[fmt]
         s = r.choice(sorted(cand, key=lambda s: len(s[1]))[: max(1, (len(cand) + 1) // 2)]) if r.random() < 0.7 else r.choice(cand)
